@@ -232,6 +232,138 @@ Proof. intros s rp F df fz pfuel o2 gh ps rs t root path target dirp name tdirp 
        exact (StaticEffects.create_hardlink_reaches s rp F df fz pfuel o2 gh ps Hcl Hfz Hchk Hwf Hl rs Hk t root path target dirp name tdirp tname o1 o3). Qed.
 
 
+(* ---- the full functional statement, on the DYNAMIC kernel model (theories/Dyn.v) -------------
+   The state is (tree, descriptor table, directory streams read to their end); the calls that
+   change the tree have their effect on it ([create_sem], [unlink_sem], [link_sem], [rename_sem],
+   [creat_sem]: tied to the running kernel by T2d, tools/props/C14.py).  [parent_ok] is "the
+   parent lookup of this path ended with [dir] open on object [o], every other descriptor as it
+   was"; each backend establishes it from its walk (the emulated one by C01's refinement and
+   C11's balance through the bridge DynProofs.drun_static, the kernel one by one openat2).
+   Executing the operation then ends in EXACTLY the state the *at call produces on (o, name):
+   its tree, or the old tree and its errno; [dir] closed again; nothing else. *)
+From PV Require Dyn DynProofs DynEffects.
+
+Theorem C14_bridge_static_to_dynamic :
+  forall rp A (p : prog A), FaultProofs.calls_le EffectProofs.eff 0 p -> forall s t t1 a,
+    Static.run s rp t p = Static.Done t1 a ->
+    Dyn.drun rp {| Dyn.ds := s; Dyn.dt := t; Dyn.dseen := [] |} p = Dyn.DDone {| Dyn.ds := s; Dyn.dt := t1; Dyn.dseen := [] |} a.
+Proof. exact DynProofs.drun_static. Qed.
+
+Theorem C14_parent_ok_emulated :
+  forall s rp F df fz pfuel o2 gh ps,
+    StaticProofs.closed s -> fz <> 0%nat -> StaticProofs.chk_static_ok s rp F (OpathM.check_current fz o2 pfuel gh) ->
+    wf s df -> StaticProofs.links_ok s -> forall rs, rs_kernel rs = false ->
+    forall t root path dirp name o,
+    path_split path = Some (Ok (dirp, Some name)) -> has_nul dirp = false ->
+    StaticProofs.Frame s F t -> Static.tget t root = Some ROOT ->
+    ewalk s dirp false (has (rs_flags rs) RESOLVE_NO_SYMLINKS) = WOk o ->
+    exists t1 dir, DynEffects.parent_ok s rp fz pfuel o2 gh ps rs t root path t1 dir name o /\ StaticProofs.Frame s F t1 /\ Static.tget t1 root = Some ROOT.
+Proof. exact DynEffects.parent_ok_emu. Qed.
+
+Theorem C14_parent_ok_kernel :
+  forall s rp fz pfuel gh ps, StaticProofs.closed s -> fz <> 0%nat -> forall rs, rs_kernel rs = true ->
+    forall t root path dirp name o,
+    path_split path = Some (Ok (dirp, Some name)) -> has_nul dirp = false ->
+    Static.tget t root = Some ROOT ->
+    kwalk s dirp false (has (N.lor OPENAT2_RESOLVE_RESOLVE (rs_flags rs)) RESOLVE_NO_SYMLINKS) = WOk o ->
+    DynEffects.parent_ok s rp fz pfuel true gh ps rs t root path ((Static.fresh t, o) :: t) (Static.fresh t) name o.
+Proof. exact DynEffects.parent_ok_kern. Qed.
+
+Theorem C14_create_dir_exact_effect :
+  forall s rp fz pfuel o2 gh ps rs, fz <> 0%nat -> forall t root path t1 dir name o m,
+    DynEffects.parent_ok s rp fz pfuel o2 gh ps rs t root path t1 dir name o -> has_nul name = false ->
+    Dyn.drun rp {| Dyn.ds := s; Dyn.dt := t; Dyn.dseen := [] |} (root_create fz o2 pfuel gh ps rs root path (IDirectory m)) =
+    DynProofs.after_unit s t1 dir (Dyn.create_sem s o name KDir).
+Proof. exact DynEffects.create_dir_exact. Qed.
+
+Theorem C14_create_node_exact_effect :
+  forall s rp fz pfuel o2 gh ps rs, fz <> 0%nat -> forall t root path t1 dir name o ty k,
+    DynEffects.parent_ok s rp fz pfuel o2 gh ps rs t root path t1 dir name o -> has_nul name = false ->
+    StaticEffects.node_type ty <> 0 ->
+    Dyn.kind_of_mode (N.lor (StaticEffects.node_type ty) (N.land (StaticEffects.node_raw ty) MODE_BITS)) = Some k ->
+    Dyn.drun rp {| Dyn.ds := s; Dyn.dt := t; Dyn.dseen := [] |} (root_create fz o2 pfuel gh ps rs root path ty) =
+    DynProofs.after_unit s t1 dir (Dyn.create_sem s o name k).
+Proof. exact DynEffects.create_node_exact. Qed.
+
+Theorem C14_create_symlink_exact_effect :
+  forall s rp fz pfuel o2 gh ps rs, fz <> 0%nat -> forall t root path t1 dir name o target,
+    DynEffects.parent_ok s rp fz pfuel o2 gh ps rs t root path t1 dir name o -> has_nul name = false -> has_nul target = false ->
+    Dyn.drun rp {| Dyn.ds := s; Dyn.dt := t; Dyn.dseen := [] |} (root_create fz o2 pfuel gh ps rs root path (ISymlink target)) =
+    DynProofs.after_unit s t1 dir (if is_nil target then Dyn.EErr ENOENT else Dyn.create_sem s o name (KLnk target)).
+Proof. exact DynEffects.create_symlink_exact. Qed.
+
+Theorem C14_remove_exact_effect :
+  forall s rp fz pfuel o2 gh ps rs, fz <> 0%nat -> forall t root path t1 dir name o isdir,
+    DynEffects.parent_ok s rp fz pfuel o2 gh ps rs t root path t1 dir name o -> has_nul name = false ->
+    Dyn.drun rp {| Dyn.ds := s; Dyn.dt := t; Dyn.dseen := [] |} (root_remove_inode fz o2 pfuel gh ps rs root path isdir) =
+    DynProofs.after_unit s t1 dir (Dyn.unlink_sem s o name (if isdir then AT_REMOVEDIR else 0)).
+Proof. exact DynEffects.remove_exact. Qed.
+
+(* create_file: the descriptor returned is open on the very object that now is (or already
+   was) under that name in the resulting tree *)
+Theorem C14_create_file_exact_effect :
+  forall s rp fz pfuel o2 gh ps rs, fz <> 0%nat -> forall t root path t1 dir name o flags mode,
+    DynEffects.parent_ok s rp fz pfuel o2 gh ps rs t root path t1 dir name o -> has_nul name = false ->
+    let fl := N.lor (N.lor (N.lor (N.lor flags CREATE_FILE_FORCED) OPENAT_NOFOLLOW_FORCED) OPENAT_FORCED) O_LARGEFILE in
+    Dyn.drun rp {| Dyn.ds := s; Dyn.dt := t; Dyn.dseen := [] |} (root_create_file fz o2 pfuel gh ps rs root path flags mode) =
+    match Dyn.creat_sem s o name fl with
+    | Dyn.EOpen s' ob =>
+        let t2 := Dyn.reloc (Dyn.NPB s) (Dyn.NPB s') t1 in
+        Dyn.DDone {| Dyn.ds := s'; Dyn.dt := Static.tdel ((Static.fresh t2, ob) :: t2) dir; Dyn.dseen := [] |} (Ok (Static.fresh t2))
+    | Dyn.EErr e => Dyn.DDone {| Dyn.ds := s; Dyn.dt := Static.tdel t1 dir; Dyn.dseen := [] |} (Err (OsError e))
+    | Dyn.EOut => Dyn.DDone {| Dyn.ds := s; Dyn.dt := Static.tdel t1 dir; Dyn.dseen := [] |} (Err (OsError ENOSYS))
+    | Dyn.EUnit _ => Dyn.DNoFuel
+    end.
+Proof. exact DynEffects.create_file_exact. Qed.
+
+Theorem C14_rename_exact_effect :
+  forall s rp fz pfuel o2 gh ps rs, fz <> 0%nat -> forall t root src dst t1 d1 sname o1 t2 d2 dname o3 fl,
+    DynEffects.parent_ok s rp fz pfuel o2 gh ps rs t root src t1 d1 sname o1 ->
+    DynEffects.parent_ok s rp fz pfuel o2 gh ps rs t1 root dst t2 d2 dname o3 ->
+    has_nul sname = false -> has_nul dname = false ->
+    Dyn.drun rp {| Dyn.ds := s; Dyn.dt := t; Dyn.dseen := [] |} (root_rename fz o2 pfuel gh ps rs root src dst fl) =
+    match Dyn.rename_sem s o1 sname o3 dname fl with
+    | Dyn.EUnit s' => Dyn.DDone {| Dyn.ds := s'; Dyn.dt := Static.tdel (Static.tdel (Dyn.reloc (Dyn.NPB s) (Dyn.NPB s') t2) d2) d1; Dyn.dseen := [] |} (Ok tt)
+    | Dyn.EErr e => Dyn.DDone {| Dyn.ds := s; Dyn.dt := Static.tdel (Static.tdel t2 d2) d1; Dyn.dseen := [] |} (Err (OsError e))
+    | Dyn.EOut => Dyn.DDone {| Dyn.ds := s; Dyn.dt := Static.tdel (Static.tdel t2 d2) d1; Dyn.dseen := [] |} (Err (OsError ENOSYS))
+    | Dyn.EOpen _ _ => Dyn.DNoFuel
+    end.
+Proof. exact DynEffects.rename_exact. Qed.
+
+Theorem C14_hardlink_exact_effect :
+  forall s rp fz pfuel o2 gh ps rs, fz <> 0%nat -> forall t root path target t1 d1 name o1 t2 d2 tname o3,
+    DynEffects.parent_ok s rp fz pfuel o2 gh ps rs t root path t1 d1 name o1 ->
+    DynEffects.parent_ok s rp fz pfuel o2 gh ps rs t1 root target t2 d2 tname o3 ->
+    has_nul name = false -> has_nul tname = false ->
+    Dyn.drun rp {| Dyn.ds := s; Dyn.dt := t; Dyn.dseen := [] |} (root_create fz o2 pfuel gh ps rs root path (IHardlink target)) =
+    match Dyn.link_sem s o3 tname o1 name LINKAT_FLAGS with
+    | Dyn.EUnit s' => Dyn.DDone {| Dyn.ds := s'; Dyn.dt := Static.tdel (Static.tdel (Dyn.reloc (Dyn.NPB s) (Dyn.NPB s') t2) d1) d2; Dyn.dseen := [] |} (Ok tt)
+    | Dyn.EErr e => Dyn.DDone {| Dyn.ds := s; Dyn.dt := Static.tdel (Static.tdel t2 d1) d2; Dyn.dseen := [] |} (Err (OsError e))
+    | Dyn.EOut => Dyn.DDone {| Dyn.ds := s; Dyn.dt := Static.tdel (Static.tdel t2 d1) d2; Dyn.dseen := [] |} (Err (OsError ENOSYS))
+    | Dyn.EOpen _ _ => Dyn.DNoFuel
+    end.
+Proof. exact DynEffects.hardlink_exact. Qed.
+
+(* executed (non-vacuity): on a concrete tree the real model programs, run on the dynamic kernel by
+   both backends, create a/b/new through the escaping link, refuse to rmdir a non-empty directory
+   (ENOTEMPTY, tree unchanged), and move a directory with its content *)
+Example C14_dynamic_runs :
+  let s := FSModel.build [FSModel.MkDir [b "a"]; FSModel.MkDir [b "a"; b "b"]; FSModel.MkFile [b "a"; b "b"; b "f"]; FSModel.MkLnk [b "esc"] (b "../../.."); FSModel.MkLnk [b "a"; b "up"] (b "../a/b")] in
+  let gh := {| ph_fd := 4; ph_mnt := Some Static.PROC_MNT; ph_subset := false; ph_openat2 := true |} in
+  let st := {| Dyn.ds := s; Dyn.dt := [(5%Z, ROOT); (4%Z, Static.PB s)]; Dyn.dseen := [] |} in
+  let emu := {| rs_kernel := false; rs_flags := 0 |} in let kern := {| rs_kernel := true; rs_flags := 0 |} in
+  let tree {A} (o : Dyn.doutcome A) := match o with Dyn.DDone st' _ => map (fun e => fst (fst e)) (Dyn.dump (Dyn.ds st')) | _ => [] end in
+  let res {A} (o : Dyn.doutcome A) := match o with Dyn.DDone _ a => Some a | _ => None end in
+  tree (Dyn.drun (b "/srv/root") st (root_create 1 true 2 gh 1 emu 5 (b "esc/a/up/new") (IDirectory 493)))
+    = [[b "a"]; [b "a"; b "b"]; [b "a"; b "b"; b "f"]; [b "a"; b "b"; b "new"]; [b "a"; b "up"]; [b "esc"]] /\
+  tree (Dyn.drun (b "/srv/root") st (root_create 1 true 2 gh 1 kern 5 (b "esc/a/up/new") (IDirectory 493)))
+    = [[b "a"]; [b "a"; b "b"]; [b "a"; b "b"; b "f"]; [b "a"; b "b"; b "new"]; [b "a"; b "up"]; [b "esc"]] /\
+  res (Dyn.drun (b "/srv/root") st (root_remove_inode 1 true 2 gh 1 emu 5 (b "a/b") true)) = Some (Err (OsError ENOTEMPTY)) /\
+  tree (Dyn.drun (b "/srv/root") st (root_remove_inode 1 true 2 gh 1 emu 5 (b "a/b") true)) = map (fun e => fst (fst e)) (Dyn.dump s) /\
+  tree (Dyn.drun (b "/srv/root") st (root_rename 1 true 2 gh 1 emu 5 (b "a/b") (b "bb") 0))
+    = [[b "a"]; [b "a"; b "up"]; [b "esc"]; [b "bb"]; [b "bb"; b "f"]].
+Proof. vm_compute. repeat split. Qed.
+
 Print Assumptions C14_parent_and_name.
 Print Assumptions C14_split_shape.
 Print Assumptions C14_trailing_slash.
@@ -247,3 +379,13 @@ Print Assumptions C14_create_symlink_acts_on_parent_object.
 Print Assumptions C14_create_file_acts_on_parent_object.
 Print Assumptions C14_rename_acts_on_parent_objects.
 Print Assumptions C14_hardlink_acts_on_parent_objects.
+Print Assumptions C14_bridge_static_to_dynamic.
+Print Assumptions C14_parent_ok_emulated.
+Print Assumptions C14_parent_ok_kernel.
+Print Assumptions C14_create_dir_exact_effect.
+Print Assumptions C14_create_node_exact_effect.
+Print Assumptions C14_create_symlink_exact_effect.
+Print Assumptions C14_remove_exact_effect.
+Print Assumptions C14_create_file_exact_effect.
+Print Assumptions C14_rename_exact_effect.
+Print Assumptions C14_hardlink_exact_effect.
